@@ -14,7 +14,7 @@ if ! git apply "$P" 2>>"$OUT"; then echo "RESULT apply_failed" >> "$OUT"; exit 1
 cargo test --workspace --no-fail-fast --offline > "$S/suite.log" 2>&1
 pass=$(grep -E "^test result" "$S/suite.log" | sed -E 's/.* ([0-9]+) passed.*/\1/' | paste -sd+ | bc)
 fail=$(grep -E "^test result" "$S/suite.log" | sed -E 's/.* ([0-9]+) failed.*/\1/' | paste -sd+ | bc)
-comp=$(grep -c "^error" "$S/suite.log")
+comp=$(grep -c "^error\(\[E[0-9]*\]\)\?: could not compile\|^error\[E" "$S/suite.log")
 echo "suite_with_patch: passed=$pass failed=$fail compile_errors=$comp" >> "$OUT"
 cp "$S/demo.rs" tests/seed_demo.rs
 cargo test --offline --test seed_demo > "$S/demo_with.log" 2>&1; dw=$?
